@@ -183,15 +183,15 @@ def retry_timeouts(answers, timed_out, skipped, rerun):
     return n
 
 
-def static_objects(repo, scratch):
-    """compile pcp_server.c of the tree under test and list (a) the objects of static storage duration it defines
+def static_objects(repo, scratch, unit="pcp_server.c"):
+    """compile pcp_server.c (or another unit of src/pdsh) of the tree under test and list (a) the objects of static storage duration it defines
     (nm types B b D d C: data, bss, common -- function-local statics appear as `name.N`), (b) the functions it calls.
     Returns (sorted names of (a) without the `.N` suffix, sorted names of (b)) or None when it does not compile."""
     import subprocess
-    obj = os.path.join(scratch, "pcp_server_nm.o")
+    obj = os.path.join(scratch, unit.replace(".c", "_nm.o"))
     # -fno-pie: constant tables of pointers stay in .rodata (with PIE they move to .data.rel.ro and would look writable)
     p = subprocess.run(["gcc", "-c", "-w", "-O0", "-fno-pie", "-fno-pic", "-DHAVE_CONFIG_H", "-I" + repo, "-I" + repo + "/src/pdsh",
-                        "-I" + repo + "/src/common", os.path.join(repo, "src/pdsh/pcp_server.c"), "-o", obj],
+                        "-I" + repo + "/src/common", os.path.join(repo, "src/pdsh", unit), "-o", obj],
                        stdout=subprocess.PIPE, stderr=subprocess.PIPE)
     if p.returncode != 0:
         return None
@@ -380,3 +380,78 @@ def analyse(stream):
 def hostile_name(n):
     """the class of names the D13 finding is about"""
     return b"/" in n or n == b".."
+
+
+# ---------------------------------------------------------------------------------------------------------------
+# process pools: every case of C11/C12 is independent of every other (own jail, own forked receiver, one model line
+# -> one answer line), so a batch is cut into contiguous pieces that run in up to POOL harness / model processes at a
+# time; answers come back in the order of the cases, whatever the number of workers (deterministic).
+
+def pool_size():
+    try:
+        n = len(os.sched_getaffinity(0))
+    except AttributeError:
+        n = os.cpu_count() or 1
+    return max(1, min(int(os.environ.get("VERIF_PCP_POOL", "8")), n))
+
+
+def _pieces(n, k, per=1):
+    """cut range(n) into contiguous pieces: about `per` pieces per worker, so that one slow piece does not
+    leave the other workers idle"""
+    if n == 0:
+        return []
+    m = max(1, min(n, k * per))
+    size = (n + m - 1) // m
+    return [(a, min(a + size, n)) for a in range(0, n, size)]
+
+
+def par_batch(cmd, seqs, timeout=1800, env=None):
+    """vlib.seqrun.run_batch over a pool of harness processes"""
+    from concurrent.futures import ThreadPoolExecutor
+    from vlib.seqrun import run_batch
+    k = pool_size()
+    if k == 1 or len(seqs) < 8:
+        return run_batch(cmd, seqs, timeout=timeout, env=env)
+    # one piece per worker: every harness process answers `skipped` after MAX_TIMEOUTS hanging cases, so the time a
+    # hanging receiver can cost is bounded per PROCESS -- few processes, small bound
+    pcs = _pieces(len(seqs), k, per=1)
+    with ThreadPoolExecutor(max_workers=k) as ex:
+        parts = list(ex.map(lambda ab: run_batch(cmd, seqs[ab[0]:ab[1]], timeout=timeout, env=env), pcs))
+    return [r for p in parts for r in p]
+
+
+def par_model(ctx, engine, lines, timeout=1800):
+    """ctx.model over a pool of model-driver processes; `lines` = list of protocol lines (no newline), one answer each"""
+    from concurrent.futures import ThreadPoolExecutor
+    k = pool_size()
+    if k == 1 or len(lines) < 8:
+        return ctx.model(engine, "".join(l + "\n" for l in lines), timeout=timeout)
+    pcs = _pieces(len(lines), k, per=3)
+
+    def one(ab):
+        out = ctx.model(engine, "".join(l + "\n" for l in lines[ab[0]:ab[1]]), timeout=timeout)
+        if len(out) != ab[1] - ab[0]:
+            raise RuntimeError("model driver: %d answers for %d lines" % (len(out), ab[1] - ab[0]))
+        return out
+    with ThreadPoolExecutor(max_workers=k) as ex:
+        parts = list(ex.map(one, pcs))
+    return [r for p in parts for r in p]
+
+
+_RM = []
+
+
+def rm_bg(path):
+    """remove a directory tree without waiting for it (thousands of jails, some nested a hundred levels deep: on a
+    busy machine the removal takes longer than the runs); what is left when the check ends goes with ctx.scratch"""
+    import subprocess
+    if not os.path.lexists(path):
+        return
+    old = "%s.old%d" % (path, len(_RM))
+    try:
+        os.rename(path, old)
+    except OSError:
+        import shutil
+        shutil.rmtree(path, ignore_errors=True)
+        return
+    _RM.append(subprocess.Popen(["rm", "-rf", old], stdout=subprocess.DEVNULL, stderr=subprocess.DEVNULL))
